@@ -438,6 +438,15 @@ func extensions() []Variant {
 			*ops.Deposits = append(*ops.Deposits, (*ops.Deposits)[len(*ops.Deposits)-1])
 			return nil
 		})},
+		// deposit_count == eth1_deposit_index: no deposit is expected, a block that carries one is invalid
+		{"deposit-one-when-none-expected", "deposit_none_expected", P0, edited(func(pre *chain.StateCtx, env *common.BeaconBlockEnvelope, ops *chain.BodyOps) error {
+			ed, idx := pre.Eth1()
+			if len(*ops.Deposits) != 0 || ed.DepositCount != idx {
+				return ErrNotApplicable
+			}
+			*ops.Deposits = append(*ops.Deposits, common.Deposit{Data: chain.MakeDepositData(pre.Spec, pre.Keys, chain.DepositSpec{Key: 91})})
+			return nil
+		})},
 		{"deposit-swapped-order", "deposit", P0, edited(func(pre *chain.StateCtx, env *common.BeaconBlockEnvelope, ops *chain.BodyOps) error {
 			if len(*ops.Deposits) < 2 {
 				return ErrNotApplicable
